@@ -32,6 +32,7 @@ const COMPONENTS: &str = "\
 {% component pill(label) %}<i>{{ label }}</i>{% endcomponent pill %}\
 {% component box(t = \"x\") %}[{{ t }}:{{ body }}]{% endcomponent box %}\
 {% component list(items: array, sep = \", \") %}{% for i in items %}{{ i }}{% if not loop.last %}{{ sep }}{% endif %}{% endfor %}{% endcomponent list %}\
+{% component yell(label) %}<{{ label | shout }}{{ peek() }}>{% endcomponent yell %}\
 {% component card(title, ...rest) %}{% set h %}<h1>{{ title }}</h1>{% endset %}{{ h }}{{ <pill label={title} /> }}{{ rest }}{{ body }}{% endcomponent card %}";
 
 /// (name, source, what it is there for)
@@ -93,6 +94,8 @@ fn corpus(large_n: usize) -> Vec<(String, String, &'static str)> {
         ("rxswap.html", "{{ email | regex_replace(pattern=pat, rep=\"$2 at $1\") }}".into(), "tera-contrib regex_replace: the same pattern with a replacement that uses groups"),
         ("rxmatch.html", "{{ email is matching(pat=pat) }}{{ email is matching(pat=\"^b\") }}{{ a | striptags }}|{{ a | spaceless }}|{{ email | regex_replace(pattern=\"o\", rep=\"0\") }}".into(), "tera-contrib matching (its own cache), striptags, spaceless (lazily built statics)"),
         ("rxbad.html", "x{{ email | regex_replace(pattern=\"(\", rep=\"y\") }}".into(), "tera-contrib regex_replace with an invalid pattern: an error every time"),
+        ("custom.html", "{{ b | shout }}{{ peek() }}{% if a is longer_than_b %}L{% else %}S{% endif %}{% block c %}[{{ a | shout }}{{ peek() }}]{% endblock %}{{ <yell label={b} /> }}".into(), "user filter / function / test that call back into the engine through State (call_filter, get), at top level, in a block, in a component"),
+        ("customchild.html", "{% extends \"custom.html\" %}{% block c %}({{ super() }}{{ b | shout }}){% endblock %}".into(), "the same through super() and a child block"),
         ("unicode.html", "ünï {{ b }} ✓ {{ b | upper }} {% for c in \"日本\" %}{{ c }}·{% endfor %}".into(), "multi-byte text"),
     ];
     v.push((
@@ -116,6 +119,8 @@ const BLOCKS: &[(&str, &str)] = &[
     ("blockinclude.html", "inner"),
     ("blockinclude.html", "body"),
     ("base.html", "nosuchblock"),
+    ("custom.html", "c"),
+    ("customchild.html", "c"),
 ];
 
 /// (component, body, which context style). Style 0 = exactly the declared arguments taken from
@@ -130,6 +135,8 @@ const COMPONENT_CALLS: &[(&str, Option<&str>, u8)] = &[
     ("card", None, 1),
     ("pill", None, 1),
     ("nosuch", None, 0),
+    ("yell", None, 0),
+    ("yell", Some("<b>"), 1),
 ];
 
 fn context_jsons() -> Vec<(&'static str, Json)> {
@@ -216,6 +223,7 @@ fn component_context(name: &str, style: u8, base: &Context) -> Context {
     };
     match name {
         "pill" => put("label", "a"),
+        "yell" => put("label", "b"),
         "box" => put("t", "b"),
         "list" => put("items", "xs"),
         "card" => {
@@ -243,7 +251,29 @@ impl<T> std::ops::Deref for Trust<T> {
 
 /// The filters / tests of tera-contrib that keep state between calls (regex caches behind a lock,
 /// lazily built statics). Registering them again gives an instance fresh caches.
+/// User extensions that go back into the engine through the public `State` API: a filter that
+/// applies another registered filter (`State::call_filter`), a function and a test that read
+/// variables of the running render (`State::get`). Every render entry point has to hand them a
+/// fully set up `State`.
+fn shout(val: &str, _: tera::Kwargs, state: &tera::State) -> tera::TeraResult<String> {
+    let up = state.call_filter("upper", &tera::Value::from(val), tera::Kwargs::default())?;
+    let n: Option<i64> = state.get("n")?;
+    Ok(format!("{}!{}", up.as_str().unwrap_or("?"), n.unwrap_or(-7)))
+}
+fn peek(_: tera::Kwargs, state: &tera::State) -> tera::TeraResult<String> {
+    let a: Option<String> = state.get("a")?;
+    let trimmed = state.call_filter("trim", &tera::Value::from(" x "), tera::Kwargs::default())?;
+    Ok(format!("<{}|{}>", a.map(|s| s.len()).unwrap_or(0), trimmed.as_str().unwrap_or("?")))
+}
+fn longer_than_b(val: &str, _: tera::Kwargs, state: &tera::State) -> tera::TeraResult<bool> {
+    let b: Option<String> = state.get("b")?;
+    Ok(val.len() > b.map(|s| s.len()).unwrap_or(0))
+}
+
 fn register_contrib(t: &mut Tera) {
+    t.register_filter("shout", shout);
+    t.register_function("peek", peek);
+    t.register_test("longer_than_b", longer_than_b);
     t.register_filter("regex_replace", tera_contrib::regex::RegexReplace::default());
     t.register_test("matching", tera_contrib::regex::Matching::default());
     t.register_filter("striptags", tera_contrib::regex::striptags);
